@@ -406,3 +406,174 @@ op_rows!(25, c06_bin_all_var, c06_bin_all_int, c06_bin_all_str, c06_bin_all_date
 op_rows!(26, c06_bin_any_var, c06_bin_any_int, c06_bin_any_str, c06_bin_any_date, c06_bin_any_bytes0, c06_bin_any_bytes1, c06_bin_any_bool, c06_bin_any_set0, c06_bin_any_set1, c06_bin_any_null, c06_bin_any_arr0, c06_bin_any_arr1, c06_bin_any_map0, c06_bin_any_map1);
 op_rows!(27, c06_bin_get_var, c06_bin_get_int, c06_bin_get_str, c06_bin_get_date, c06_bin_get_bytes0, c06_bin_get_bytes1, c06_bin_get_bool, c06_bin_get_set0, c06_bin_get_set1, c06_bin_get_null, c06_bin_get_arr0, c06_bin_get_arr1, c06_bin_get_map0, c06_bin_get_map1);
 op_rows!(28, c06_bin_ffi_var, c06_bin_ffi_int, c06_bin_ffi_str, c06_bin_ffi_date, c06_bin_ffi_bytes0, c06_bin_ffi_bytes1, c06_bin_ffi_bool, c06_bin_ffi_set0, c06_bin_ffi_set1, c06_bin_ffi_null, c06_bin_ffi_arr0, c06_bin_ffi_arr1, c06_bin_ffi_map0, c06_bin_ffi_map1);
+
+// ---------------------------------------------------------------- unary operators
+/// op codes: 0 negate, 1 parens, 2 length, 3 type, 4 extern call
+fn unary_of(code: u8) -> Unary {
+    match code {
+        0 => Unary::Negate,
+        1 => Unary::Parens,
+        2 => Unary::Length,
+        3 => Unary::TypeOf,
+        _ => Unary::Ffi(kani::any()),
+    }
+}
+const TYPE_NAMES: [&str; 10] = ["", "integer", "string", "date", "bytes", "bool", "set", "null", "array", "map"];
+
+#[inline(never)]
+fn run_unary(op: u8, ty: u8, n: u8) {
+    let symbols = SymbolTable::new();
+    let mut tmp = TemporarySymbolTable::new(&symbols);
+    let ext = HashMap::new();
+    let v = any_val(ty, n);
+    if ty == 2 && op == 2 {
+        // length of a string: only unknown symbols here (a symbolic index into the symbol
+        // table would be a symbolic pointer); known strings are concrete in c06_str_*
+        kani::assume(v.a >= 1024);
+    }
+    let res = unary_of(op).evaluate(mk(&v), &mut tmp, &ext);
+    let ok = match op {
+        0 => match (&res, ty) {
+            (Ok(Term::Bool(b)), 5) => *b == (v.a != 1),
+            (Err(error::Expression::InvalidType), t) => t != 5,
+            _ => false,
+        },
+        1 => match &res {
+            Ok(t) => *t == mk(&v),
+            Err(_) => false,
+        },
+        2 => match (&res, ty) {
+            (Ok(Term::Integer(l)), 4) | (Ok(Term::Integer(l)), 6) | (Ok(Term::Integer(l)), 8) | (Ok(Term::Integer(l)), 9) => *l == n as i64,
+            (Err(error::Expression::UnknownSymbol(s)), 2) => *s == v.a as u64,
+            (Err(error::Expression::InvalidType), t) => !(t == 2 || t == 4 || t == 6 || t == 8 || t == 9),
+            _ => false,
+        },
+        3 => match (&res, ty) {
+            (Err(error::Expression::InvalidType), 0) => true,
+            (Ok(Term::Str(s)), t) if t != 0 => tmp.get_symbol(*s) == Some(TYPE_NAMES[t as usize]),
+            _ => false,
+        },
+        _ => matches!(&res, Err(error::Expression::UnknownSymbol(_)) | Err(error::Expression::UndefinedExtern(_))),
+    };
+    kani::cover!(res.is_ok(), "witness-any: some cell returns a value");
+    kani::cover!(res.is_err(), "witness-any: some cell returns an error");
+    std::mem::forget(res);
+    std::mem::forget(tmp);
+    std::mem::forget(ext);
+    assert!(ok, "Unary::evaluate disagrees with the specification table");
+}
+
+fn unary_row(op: u8) {
+    let sel: u8 = kani::any();
+    match sel {
+        0 => run_unary(op, 0, 0),
+        1 => run_unary(op, 1, 0),
+        2 => run_unary(op, 2, 0),
+        3 => run_unary(op, 3, 0),
+        4 => run_unary(op, 4, 0),
+        5 => run_unary(op, 4, 1),
+        6 => run_unary(op, 5, 0),
+        7 => run_unary(op, 6, 0),
+        8 => run_unary(op, 6, 1),
+        9 => run_unary(op, 7, 0),
+        10 => run_unary(op, 8, 0),
+        11 => run_unary(op, 8, 1),
+        12 => run_unary(op, 9, 0),
+        13 => run_unary(op, 9, 1),
+        _ => {}
+    }
+}
+macro_rules! urow {
+    ($name:ident, $op:expr, $uw:expr) => {
+        #[kani::proof]
+        #[kani::stub(regex::Regex::new, crate::kh_support::regex_new_stub)]
+        #[kani::stub(regex::Regex::is_match, crate::kh_support::regex_is_match_stub)]
+        #[kani::unwind($uw)]
+        fn $name() {
+            unary_row($op);
+        }
+    };
+}
+urow!(c06_un_negate, 0, 3);
+urow!(c06_un_parens, 1, 3);
+urow!(c06_un_length, 2, 3);
+urow!(c06_un_typeof, 3, 30);
+urow!(c06_un_ffi, 4, 3);
+
+// ---------------------------------------------------------------- multiplication / division values
+/// multiplication: (a) both operands symbolic, 32 x 8 bits: exact product; (b) one operand at
+/// full 64-bit width times each constant in -3..=3: exact product or Overflow at the boundary.
+/// (64 x 64 bit symbolic multiplication against a 128-bit reference does not finish in the solver.)
+fn mul_case(a: i64, b: i64) {
+    let symbols = SymbolTable::new();
+    let mut tmp = TemporarySymbolTable::new(&symbols);
+    let ext = HashMap::new();
+    let (l, r) = if kani::any() { (a, b) } else { (b, a) };
+    let res = Binary::Mul.evaluate(Term::Integer(l), Term::Integer(r), &mut tmp, &ext);
+    let wide = a as i128 * b as i128;
+    let ok = match &res {
+        Ok(Term::Integer(v)) => *v as i128 == wide,
+        Err(error::Expression::Overflow) => wide > i64::MAX as i128 || wide < i64::MIN as i128,
+        _ => false,
+    };
+    kani::cover!(res.is_ok(), "witness-any: a product was returned");
+    kani::cover!(res.is_err(), "witness-any: an overflow was reported");
+    std::mem::forget(res);
+    std::mem::forget(tmp);
+    std::mem::forget(ext);
+    assert!(ok, "integer multiplication wraps or reports a wrong overflow");
+}
+#[kani::proof]
+#[kani::stub(regex::Regex::new, crate::kh_support::regex_new_stub)]
+#[kani::stub(regex::Regex::is_match, crate::kh_support::regex_is_match_stub)]
+#[kani::unwind(3)]
+fn c06_mul_value_32x8() {
+    let a: i32 = kani::any();
+    let b: i8 = kani::any();
+    mul_case(a as i64, b as i64);
+}
+#[kani::proof]
+#[kani::stub(regex::Regex::new, crate::kh_support::regex_new_stub)]
+#[kani::stub(regex::Regex::is_match, crate::kh_support::regex_is_match_stub)]
+#[kani::unwind(3)]
+fn c06_mul_overflow_boundary() {
+    let a: i64 = kani::any();
+    let sel: u8 = kani::any();
+    match sel {
+        0 => mul_case(a, -3),
+        1 => mul_case(a, -2),
+        2 => mul_case(a, -1),
+        3 => mul_case(a, 0),
+        4 => mul_case(a, 1),
+        5 => mul_case(a, 2),
+        6 => mul_case(a, 3),
+        _ => {}
+    }
+}
+#[kani::proof]
+#[kani::stub(regex::Regex::new, crate::kh_support::regex_new_stub)]
+#[kani::stub(regex::Regex::is_match, crate::kh_support::regex_is_match_stub)]
+#[kani::unwind(3)]
+fn c06_div_value_64by8() {
+    let symbols = SymbolTable::new();
+    let mut tmp = TemporarySymbolTable::new(&symbols);
+    let ext = HashMap::new();
+    let a: i64 = kani::any();
+    let b8: i8 = kani::any();
+    let b = b8 as i64;
+    let res = Binary::Div.evaluate(Term::Integer(a), Term::Integer(b), &mut tmp, &ext);
+    let ok = match &res {
+        // q is the truncated quotient: a = q*b + r with |r| < |b| and r having the sign of a
+        Ok(Term::Integer(q)) => {
+            let rem = a as i128 - (*q as i128) * (b as i128);
+            b != 0 && !(a == i64::MIN && b == -1) && rem.abs() < (b as i128).abs() && (rem == 0 || (rem < 0) == (a < 0))
+        }
+        Err(error::Expression::DivideByZero) => b == 0 || (a == i64::MIN && b == -1),
+        _ => false,
+    };
+    kani::cover!(res.is_err(), "witness: a division error was reported");
+    std::mem::forget(res);
+    std::mem::forget(tmp);
+    std::mem::forget(ext);
+    assert!(ok, "integer division is not the truncated quotient or reports a wrong error");
+}
